@@ -24,7 +24,7 @@ import (
 //     reply carried and is an exact cover over the current members.
 type coordC12 struct{}
 
-func (coordC12) NeedShadow() bool                                      { return false }
+func (coordC12) NeedShadow() bool                                     { return false }
 func (coordC12) CheckTick(*coordWorld, *coordTick) []xstate.Violation { return nil }
 
 func coordSubscribes(subs []string, topic string) bool {
